@@ -160,3 +160,13 @@ Example C04_nonvacuous_function :
   | Err _ => false
   end = true.
 Proof. vm_compute. reflexivity. Qed.
+
+From NurbsV Require Import Spec.BSpline Proofs.Local Proofs.LinIndep Proofs.LinIndepCurves.
+From NurbsV Require Proofs.UnionProofs.
+(* ---- the insertion matrix exists whenever the knot-vector insertion is valid (Proofs/LinIndepCurves.v) ---- *)
+Theorem C04_insertion_always_defined :
+  forall (k : kv) (nodes : list Q) (kf : kv),
+       WF (kvec k) (kdeg k) ->
+       kinsert k nodes = Ok kf -> kdeg kf = kdeg k -> exists M : mat, knot_insert k nodes = Ok M.
+Proof. exact knot_insert_succeeds. Qed.
+Print Assumptions C04_insertion_always_defined.
